@@ -116,6 +116,49 @@ def extract(repo=REPO, config='default', target_dir=None):
         lock.close()
 
 
+def extract_aux(crate_dir, crate_name):
+    """Facts of a small auxiliary crate shipped with the framework (calibration cases), extracted with the same driver and flags."""
+    ensure_driver()
+    os.makedirs(os.path.join(CACHE, 'facts'), exist_ok=True)
+    h = hashlib.sha256()
+    for root, dirs, fs in os.walk(crate_dir):
+        dirs[:] = sorted(d for d in dirs if d != 'target')
+        for fn in sorted(fs):
+            if fn.endswith(('.rs', '.toml')):
+                h.update(fn.encode())
+                with open(os.path.join(root, fn), 'rb') as fh:
+                    h.update(fh.read())
+    with open(DRIVER, 'rb') as fh:
+        h.update(hashlib.sha256(fh.read()).digest())
+    out = os.path.join(CACHE, 'facts', 'aux-%s-%s.jsonl' % (crate_name, h.hexdigest()[:24]))
+    if os.path.exists(out) and os.path.getsize(out) > 0:
+        return out
+    tdir = os.path.join(CACHE, 'target-aux-' + crate_name)
+    os.makedirs(tdir, exist_ok=True)
+    lock = open(os.path.join(tdir, '.verif-extract.lock'), 'w')
+    fcntl.flock(lock, fcntl.LOCK_EX)
+    try:
+        if os.path.exists(out) and os.path.getsize(out) > 0:
+            return out
+        for fp in glob.glob(os.path.join(tdir, 'debug', '.fingerprint', crate_name + '-*')):
+            subprocess.run(['rm', '-rf', fp])
+        import uuid
+        tmp = out + '.tmp%d-%s' % (os.getpid(), uuid.uuid4().hex[:8])
+        env = dict(os.environ)
+        env.update({'LD_LIBRARY_PATH': nightly_sysroot() + '/lib', 'RUSTFLAGS': '-Zmir-opt-level=0 -Awarnings', 'RUSTC_WORKSPACE_WRAPPER': DRIVER,
+                    'MIRFACTS_OUT': tmp, 'MIRFACTS_CRATE': crate_name, 'CARGO_TARGET_DIR': tdir, 'CARGO_NET_OFFLINE': 'true'})
+        r = sh(['cargo', '+nightly', 'check', '--offline', '--lib'], cwd=crate_dir, env=env)
+        if r.returncode != 0:
+            raise RuntimeError('cargo check (driver) failed on %s:\n%s' % (crate_dir, r.stdout[-4000:]))
+        if not os.path.exists(tmp) or os.path.getsize(tmp) == 0:
+            raise RuntimeError('driver produced no fact file for %s\n%s' % (crate_dir, r.stdout[-2000:]))
+        os.replace(tmp, out)
+        return out
+    finally:
+        fcntl.flock(lock, fcntl.LOCK_UN)
+        lock.close()
+
+
 # ---------------------------------------------------------------------------------------------
 
 class Ctx:
